@@ -831,6 +831,45 @@ def render_doc(rng, tree, p_inline=0.25, p_dotted=0.2):
     return nl.join(lines) + (nl if lines and rng.random() < 0.9 else "")
 
 
+def render_doc_with_order(rng, tree, p_inline=0.25, p_dotted=0.2):
+    """render_doc (same text, same use of rng) that also returns the tree with every table's entries in
+    DOCUMENT order — the order in which a parser meets the keys: a table's own key/value lines (inline and
+    dotted ones) first, then its [sub-tables] and [[arrays of tables]].  (C13: which key comes FIRST in a
+    table is observable through the date-time tunnel, F14.)"""
+    lines = []
+
+    def table(path, entries, header_needed, aot):
+        body, later = [], []
+        first, second = [], []
+        for key, n in entries:
+            ks = render_key(rng, key)
+            if n[0] == "t" and rng.random() >= p_inline:
+                if rng.random() < p_dotted and n[1] and all(x[0] != "t" and not _is_aot(x) for _, x in n[1]):
+                    for k2, x in n[1]:
+                        body.append("%s.%s = %s" % (ks, render_key(rng, k2), render_inline(rng, x)))
+                    first.append((key, n))
+                else:
+                    later.append((ks, n, False, key))
+            elif _is_aot(n) and rng.random() >= p_inline:
+                later.append((ks, n, True, key))
+            else:
+                body.append("%s = %s" % (ks, render_inline(rng, n)))
+                first.append((key, n))
+        if path and (header_needed or body or not later):
+            lines.append(("[[%s]]" if aot else "[%s]") % ".".join(path))
+        lines.extend(body)
+        for ks, n, is_aot, key in later:
+            if is_aot:
+                second.append((key, ("a", [("t", table(path + [ks], el[1], True, True)) for el in n[1]])))
+            else:
+                second.append((key, ("t", table(path + [ks], n[1], False, False))))
+        return first + second
+
+    ordered = ("t", table([], tree[1], False, False))
+    nl = rng.choice(["\n", "\n", "\r\n"])
+    return nl.join(lines) + (nl if lines and rng.random() < 0.9 else ""), ordered
+
+
 # ---------------------------------------------------------------------------------------------
 # random types and values
 # ---------------------------------------------------------------------------------------------
